@@ -1513,8 +1513,13 @@ func (v *VMValue) ComputedExecute(ctx *Context, detail *BufferSpan) *VMValue {
 		return nil
 	}
 
+	startOpCount := vm.NumOpCount
 	if cd.code == nil {
-		_ = vm.Run(cd.Expr)
+		// Parse resets the counter; keep what the caller has already spent
+		if err := vm.Parse(cd.Expr); err == nil {
+			vm.NumOpCount = startOpCount
+			_ = vm.RunAfterParsed()
+		}
 		cd.code = vm.code
 		cd.codeIndex = vm.codeIndex
 	} else {
@@ -1542,7 +1547,9 @@ func (v *VMValue) ComputedExecute(ctx *Context, detail *BufferSpan) *VMValue {
 		ret = NewNullVal()
 	}
 
-	ctx.NumOpCount = vm.NumOpCount
+	// add what the sub-VM spent to what the caller has spent meanwhile (a
+	// value loaded from an outer scope charges that scope's counter)
+	ctx.NumOpCount += vm.NumOpCount - startOpCount
 	ctx.IsComputedLoaded = true
 
 	if detail != nil {
@@ -1597,8 +1604,13 @@ func (v *VMValue) FuncInvokeRaw(ctx *Context, params []*VMValue, useUpCtxLocal b
 		return nil
 	}
 
+	startOpCount := vm.NumOpCount
 	if cd.code == nil {
-		_ = vm.Run(cd.Expr)
+		// Parse resets the counter; keep what the caller has already spent
+		if err := vm.Parse(cd.Expr); err == nil {
+			vm.NumOpCount = startOpCount
+			_ = vm.RunAfterParsed()
+		}
 		cd.code = vm.code
 		cd.codeIndex = vm.codeIndex
 	} else {
@@ -1619,7 +1631,9 @@ func (v *VMValue) FuncInvokeRaw(ctx *Context, params []*VMValue, useUpCtxLocal b
 		ret = NewNullVal()
 	}
 
-	ctx.NumOpCount = vm.NumOpCount
+	// add what the sub-VM spent to what the caller has spent meanwhile (a
+	// value loaded from an outer scope charges that scope's counter)
+	ctx.NumOpCount += vm.NumOpCount - startOpCount
 	if !useUpCtxLocal {
 		vm.Attrs = &ValueMap{} // 清空
 	}
